@@ -88,6 +88,12 @@ func annexB(units []HNAL) []byte {
 func libParsed(p []byte, donl bool) (string, error) {
 	var hp codecs.H265Packet
 	hp.WithDONL(donl)
+
+	return libParsedWith(&hp, p)
+}
+
+// libParsedWith decodes p with a caller-supplied (possibly already used) H265Packet.
+func libParsedWith(hp *codecs.H265Packet, p []byte) (string, error) {
 	if _, err := hp.Unmarshal(clone(p)); err != nil {
 		return "", err
 	}
@@ -177,10 +183,26 @@ func checkC14Pay(r *run, c *H265PayCase) (CaseInfo, error) {
 	if c.SkipAggregation {
 		ci.class("skip-aggregation")
 	}
+	// a receiver decodes the whole stream through ONE H265Packet: it must read what a fresh one reads
+	var stream codecs.H265Packet
+	stream.WithDONL(c.AddDONL)
+	streamed := 0
 	for callI, units := range c.Calls {
 		buf := annexB(units)
 		orig := clone(buf)
 		payloads := pl.Payload(c.MTU, buf)
+		for pi, p := range payloads {
+			rp, err := h265rtp.Parse(p, c.AddDONL)
+			if err != nil || rp.Hdr.F {
+				continue // reported below / rejected by H265Packet by design
+			}
+			fresh, ferr := libParsed(p, c.AddDONL)
+			used, uerr := libParsedWith(&stream, p)
+			if (ferr == nil) != (uerr == nil) || fresh != used {
+				return ci, failf("call %d payload %d/%d (mtu %d, donl %v) %s: an H265Packet that decoded the %d earlier payloads of this stream reads\n  %s (%v)\na fresh one\n  %s (%v)", callI, pi, len(payloads), mtu, c.AddDONL, hx(p), streamed, used, uerr, fresh, ferr)
+			}
+			streamed++
+		}
 		if !bytes.Equal(buf, orig) {
 			return ci, failf("call %d: payloader modified its input", callI)
 		}
@@ -351,6 +373,9 @@ func checkC14Pay(r *run, c *H265PayCase) (CaseInfo, error) {
 			ci.Nontrivial = true
 		}
 	}
+	if streamed >= 2 {
+		ci.class("stream-through-one-H265Packet")
+	}
 
 	return ci, nil
 }
@@ -373,6 +398,8 @@ type H265DecCase struct {
 	Y       bool     `json:"y"`
 	PHES    HexBytes `json:"phes"`
 	Cut     int      `json:"cut"` // -1 = whole
+	// Pre: payloads decoded earlier through the SAME H265Packet (results ignored); the reading of this one must not depend on them
+	Pre []H265DecCase `json:"pre,omitempty"`
 }
 
 func (c *H265DecCase) build() (payload []byte, required int) {
@@ -456,7 +483,17 @@ func checkC14Dec(r *run, c *H265DecCase) (CaseInfo, error) {
 		ci.class("dec-donl")
 	}
 	ci.Nontrivial = (c.Kind == "ap" && len(c.Units) >= 3 && c.DONL) || (c.Kind == "paci" && c.F0 && c.PHSsize >= 3) || len(in) < len(full)
-	ls, lerr := libParsed(in, c.DONL)
+	var hp codecs.H265Packet
+	hp.WithDONL(c.DONL)
+	for i := range c.Pre {
+		pre, _ := c.Pre[i].build()
+		if k := c.Pre[i].Cut; k >= 0 && k < len(pre) {
+			pre = pre[:k]
+		}
+		_, _ = hp.Unmarshal(pre)
+		ci.class("dec-after-" + c.Pre[i].Kind)
+	}
+	ls, lerr := libParsedWith(&hp, in)
 	if len(in) < required {
 		if lerr == nil {
 			return ci, failf("%s payload %s cut to %d bytes (the form needs %d) is accepted as %s", c.Kind, hx(full), len(in), required, ls)
@@ -634,6 +671,19 @@ func genH265PayCase(t *rapid.T) *H265PayCase {
 }
 
 func genH265DecCase(t *rapid.T) *H265DecCase {
+	c := genH265DecCase1(t)
+	if rapid.IntRange(0, 1).Draw(t, "withpre") == 1 {
+		for i, k := 0, rapid.IntRange(1, 3).Draw(t, "npre"); i < k; i++ {
+			pre := genH265DecCase1(t)
+			pre.DONL = c.DONL
+			c.Pre = append(c.Pre, *pre)
+		}
+	}
+
+	return c
+}
+
+func genH265DecCase1(t *rapid.T) *H265DecCase {
 	c := &H265DecCase{Kind: rapid.SampledFrom([]string{"single", "ap", "ap", "fu", "paci", "paci"}).Draw(t, "kind"), DONL: genBool(t, "donl"), Cut: -1}
 	c.DONLVal = genU16(t, "donlval")
 	small := func() HNAL {
@@ -685,7 +735,7 @@ func genH265DecCase(t *rapid.T) *H265DecCase {
 	return c
 }
 
-const ruleC14 = "payloader: 1-2 calls of 1-6 HEVC NAL units (types 0-47, layer 0-63, TID 1-7, F=1 rarely, sizes 3 bytes to several MTUs biased to MTU-4..MTU+4 and 2+k*(MTU-3)+-1 (one case in 60 holds a unit of 65530-131072 bytes), bodies free of start-code emulation), MTU >= 4 (>= 6 with DONL) biased to the floor and small values, SkipAggregation x AddDONL; every payload is parsed by an independent RFC 7798 parser and by H265Packet (all accessors must agree): <= MTU, single = unit (+DONL), AP type 48/F=0/min layer/min TID/>=2 units, FU trains >=2 with S/E placement and FuType/F/layer/TID preserved, DONL placement, IsPartitionHead, byte-exact reassembly. decoder: reference-built single/AP(2-6 units)/FU(start,middle,end)/PACI(+TSCI) payloads with and without DONL/DOND and every truncation: too-short ones rejected, others read field by field as the reference parser. accessors: all 2^16 payload headers, 2^8 FU headers, 2^16 PACI field words, TSCI triples (2^24 in thorough). Non-trivial = AP together with an FU train, unit length within the single-packet threshold window, AP>=3 units with DONL, PACI with TSCI, truncation, every accessor value; distinct = FNV-64 of the JSON case"
+const ruleC14 = "payloader: 1-2 calls of 1-6 HEVC NAL units (types 0-47, layer 0-63, TID 1-7, F=1 rarely, sizes 3 bytes to several MTUs biased to MTU-4..MTU+4 and 2+k*(MTU-3)+-1 (one case in 60 holds a unit of 65530-131072 bytes), bodies free of start-code emulation), MTU >= 4 (>= 6 with DONL) biased to the floor and small values, SkipAggregation x AddDONL; every payload is parsed by an independent RFC 7798 parser and by H265Packet (all accessors must agree): <= MTU, single = unit (+DONL), AP type 48/F=0/min layer/min TID/>=2 units, FU trains >=2 with S/E placement and FuType/F/layer/TID preserved, DONL placement, IsPartitionHead, byte-exact reassembly. decoder: reference-built single/AP(2-6 units)/FU(start,middle,end)/PACI(+TSCI) payloads with and without DONL/DOND and every truncation: too-short ones rejected, others read field by field as the reference parser; half of the cases decode 1-3 other payloads through the same H265Packet first, and the payloader check decodes every stream through one H265Packet besides a fresh one per payload (readings must agree). accessors: all 2^16 payload headers, 2^8 FU headers, 2^16 PACI field words, TSCI triples (2^24 in thorough). Non-trivial = AP together with an FU train, unit length within the single-packet threshold window, AP>=3 units with DONL, PACI with TSCI, truncation, every accessor value; distinct = FNV-64 of the JSON case"
 
 func TestC14(t *testing.T) {
 	r := begin(t, "C14", "exploration", ruleC14)
